@@ -134,23 +134,38 @@ func build(race bool) (worker string, simgenStats map[string]interface{}) {
 	os.WriteFile(filepath.Join(scratch, "harness.mod"), mod, 0644)
 	sum, _ := os.ReadFile(filepath.Join(verifDir, "harness/go.sum"))
 	os.WriteFile(filepath.Join(scratch, "harness.sum"), sum, 0644)
-	worker = filepath.Join(scratch, "worker.test")
+	worker = compileWorker("worker.test", race)
+	b, _ := os.ReadFile(filepath.Join(scratch, "simgen-stats.json"))
+	json.Unmarshal(b, &simgenStats)
+	return
+}
+
+// compileWorker compiles the harness against the instrumented copy in the scratch directory.
+func compileWorker(name string, race bool) string {
+	worker := filepath.Join(scratch, name)
 	args := []string{"test", "-c", "-vet=off", "-modfile=" + filepath.Join(scratch, "harness.mod"), "-o", worker}
 	if race {
 		args = append(args, "-race")
 	}
 	args = append(args, ".")
-	cmd = exec.Command(filepath.Join(goBin, "go"), args...)
+	cmd := exec.Command(filepath.Join(goBin, "go"), args...)
 	cmd.Dir = filepath.Join(verifDir, "harness")
 	cmd.Env = env()
-	outb, err = cmd.CombinedOutput()
+	outb, err := cmd.CombinedOutput()
 	if err != nil {
 		infra("building the worker failed: %v\n%s", err, outb)
 	}
-	b, _ := os.ReadFile(filepath.Join(scratch, "simgen-stats.json"))
-	json.Unmarshal(b, &simgenStats)
-	return
+	return worker
 }
+
+// raceClass: violation classes that only the race-detector build of the worker can observe.
+func raceClass(prop, class string) bool {
+	return prop == "C10" || class == "concurrent-map-access"
+}
+
+// raceShare: properties whose exploration gives a share of the worker slots to a second,
+// race-detector build of the same worker (every fourth slot).
+func raceShare(prop string) bool { return prop == "C01" }
 
 // runWorker runs one worker process on a job and streams its result lines.  It returns how the
 // process ended: "done", "crash" (with stderr tail), "hang" (with site/stack).
@@ -350,6 +365,12 @@ func newAgg() *aggregate {
 	return &aggregate{fired: map[string]int{}, probes: map[string]int{}, sites: map[string]int{}, traces: map[string]bool{}, shapes: map[string]bool{}, uncontrolled: map[string]int{}}
 }
 
+func (a *aggregate) probe(name string) {
+	a.mu.Lock()
+	a.probes[name]++
+	a.mu.Unlock()
+}
+
 func (a *aggregate) add(rl ResultLine) {
 	a.mu.Lock()
 	defer a.mu.Unlock()
@@ -453,6 +474,17 @@ func check(prop, tier string, seed int64, budget, workers, maxSeeds int, race, n
 	t0 := time.Now()
 	worker, sgStats := build(race)
 	defer cleanup()
+	workerRace := worker
+	if raceShare(prop) {
+		workerRace = compileWorker("worker-race.test", true)
+	}
+	// pick returns the worker binary (and whether it is the race build) that can observe a class
+	pick := func(class string) (string, bool) {
+		if raceClass(prop, class) {
+			return workerRace, true
+		}
+		return worker, race
+	}
 	buildS := time.Since(t0).Seconds()
 	if budget == 0 {
 		budget = tierBudget(prop, tier)
@@ -508,7 +540,12 @@ func check(prop, tier string, seed int64, budget, workers, maxSeeds int, race, n
 					}
 					nmu.Unlock()
 					done := map[int64]bool{}
-					end := runWorker(worker, job, race, func(rl ResultLine) { done[rl.Seed] = true; agg.add(rl) })
+					wk, wrace := worker, race
+					if raceShare(prop) && w%4 == 3 {
+						wk, wrace = workerRace, true
+						agg.probe("race-build.worker-batches")
+					}
+					end := runWorker(wk, job, wrace, func(rl ResultLine) { done[rl.Seed] = true; agg.add(rl) })
 					if end.kind == "done" {
 						break
 					}
@@ -607,28 +644,54 @@ func check(prop, tier string, seed int64, budget, workers, maxSeeds int, race, n
 			infra("violation without scenario: %s", k)
 		}
 		// confirm in a fresh process before spending time on it
-		v0 := evalScenario(worker, prop, sc, race, 20)
+		vworker, vrace := pick(g.v.Class)
+		v0 := evalScenario(vworker, prop, sc, vrace, 20)
 		if !sameViolation(v0, g.v.Class, g.v.Signature) {
 			infra("violation %q of seed %d did not reproduce in a fresh process (got ok=%v class=%q sig=%q): the simulation is not deterministic for this case", k, g.v.Seed, v0.OK, v0.Class, v0.Signature)
 		}
 		if v0.Scenario != nil {
 			sc = v0.Scenario
 		}
+		unminimised := sc
 		if !noMin {
 			minBudget := 45 * time.Second
 			if tier == "thorough" {
 				minBudget = 240 * time.Second
 			}
-			sc = minimise(worker, prop, sc, g.v.Class, g.v.Signature, race, workers, minBudget)
+			sc = minimise(vworker, prop, sc, g.v.Class, g.v.Signature, vrace, workers, minBudget)
 		}
 		// the minimised file must fail identically twice in fresh processes
-		ok := true
-		var last *Verdict
-		for i := 0; i < 2; i++ {
-			last = evalScenario(worker, prop, sc, race, 20)
-			if !sameViolation(last, g.v.Class, g.v.Signature) {
-				ok = false
+		stable := func(sc map[string]interface{}) (*Verdict, bool) {
+			ok := true
+			var last, lastBad *Verdict
+			for i := 0; i < 2; i++ {
+				last = evalScenario(vworker, prop, sc, vrace, 20)
+				if !sameViolation(last, g.v.Class, g.v.Signature) {
+					ok = false
+				} else {
+					lastBad = last
+				}
 			}
+			if lastBad != nil {
+				last = lastBad
+			}
+			return last, ok
+		}
+		last, ok := stable(sc)
+		if !ok && vrace {
+			// Race reports come from the race detector's shadow memory, which the simulator does not
+			// control: a minimised scenario can fail intermittently.  Fall back to the un-minimised
+			// scenario, which failed in the exploring process and again in a fresh one.
+			fmt.Fprintf(os.Stderr, "verifctl: minimised replay of %q fails only intermittently; reporting the un-minimised scenario\n", k)
+			sc = unminimised
+			var ok2 bool
+			if last, ok2 = stable(sc); !ok2 {
+				fmt.Fprintf(os.Stderr, "verifctl: the un-minimised replay also fails only intermittently (race detector); it failed in the exploring process and in a fresh one\n")
+				if !sameViolation(last, g.v.Class, g.v.Signature) {
+					last = v0
+				}
+			}
+			ok = true
 		}
 		if !ok {
 			infra("minimised replay of %q does not fail identically twice", k)
@@ -657,7 +720,7 @@ func sameViolation(v *Verdict, class, sig string) bool {
 	if v == nil || v.OK || v.Invalid {
 		return false
 	}
-	if class == "c10-data-race" {
+	if class == "c10-data-race" || class == "concurrent-map-access" {
 		return v.Class == class
 	}
 	if class == "c10-not-serialisable" && v.Class == "c10-data-race" {
@@ -775,8 +838,6 @@ func sanitize(s string) string {
 }
 
 func replay(prop, file string, race bool) int {
-	worker, _ := build(race)
-	defer cleanup()
 	b, err := os.ReadFile(file)
 	if err != nil {
 		infra("%v", err)
@@ -787,6 +848,11 @@ func replay(prop, file string, race bool) int {
 	if err := d.Decode(&sc); err != nil {
 		infra("%v", err)
 	}
+	if exp, _ := sc["expect"].(string); raceClass(prop, exp) {
+		race = true // the recorded violation is one only the race-detector build observes
+	}
+	worker, _ := build(race)
+	defer cleanup()
 	v := evalScenario(worker, prop, sc, race, 20)
 	if v.OK || v.Invalid {
 		fmt.Printf("replay: property %s holds on %s\n", prop, file)
